@@ -9,213 +9,18 @@
 package send
 
 import (
-	"context"
-	"errors"
 	"fmt"
-	"time"
 
-	"github.com/ipld/go-ipld-prime"
+	"github.com/ipfs/go-cid"
 	"github.com/ipld/go-ipld-prime/node/basicnode"
 	"github.com/libp2p/go-libp2p/core/peer"
 
-	"github.com/ipfs/go-cid"
-	cidlink "github.com/ipld/go-ipld-prime/linking/cid"
-
 	"github.com/ipfs/go-graphsync"
-	"github.com/ipfs/go-graphsync/allocator"
 	"github.com/ipfs/go-graphsync/internal/verifrt"
-	gsmsg "github.com/ipfs/go-graphsync/message"
 	"github.com/ipfs/go-graphsync/messagequeue"
-	gsnet "github.com/ipfs/go-graphsync/network"
-	"github.com/ipfs/go-graphsync/notifications"
-	"github.com/ipfs/go-graphsync/peermanager"
 	"github.com/ipfs/go-graphsync/responsemanager/responseassembler"
+	"github.com/ipfs/go-graphsync/zz_verif/kit"
 )
-
-func Link(i int) ipld.Link {
-	_, c, err := cid.CidFromBytes([]byte{0x01, 0x55, 0x00, 0x01, byte(i)})
-	if err != nil {
-		panic(err)
-	}
-	return cidlink.Link{Cid: c}
-}
-
-func ReqID(i int) graphsync.RequestID {
-	b := make([]byte, 16)
-	b[15] = byte(i + 1)
-	id, err := graphsync.ParseRequestID(b)
-	if err != nil {
-		panic(err)
-	}
-	return id
-}
-
-// ---------------------------------------------------------------------
-// stub network
-
-type Net struct {
-	Sent        []gsmsg.GraphSyncMessage
-	SendCalls   int
-	Connects    int
-	OpenSenders int
-	NoFaults    bool
-	MaxFaults   int
-	faults      int
-}
-
-func (n *Net) fault(name string) bool {
-	if n.NoFaults || n.faults >= n.MaxFaults {
-		return false
-	}
-	if verifrt.Bool(name) {
-		n.faults++
-		return true
-	}
-	return false
-}
-
-func (n *Net) ConnectTo(ctx context.Context, p peer.ID) error {
-	n.Connects++
-	if n.fault("connect-fails") {
-		return errors.New("stub: connect failed")
-	}
-	return nil
-}
-
-func (n *Net) NewMessageSender(ctx context.Context, p peer.ID, o gsnet.MessageSenderOpts) (gsnet.MessageSender, error) {
-	if n.fault("newsender-fails") {
-		return nil, errors.New("stub: no sender")
-	}
-	n.OpenSenders++
-	return &Sender{n: n}, nil
-}
-
-type Sender struct{ n *Net }
-
-func (s *Sender) SendMsg(ctx context.Context, m gsmsg.GraphSyncMessage) error {
-	s.n.SendCalls++
-	if s.n.fault("send-fails") {
-		return errors.New("stub: send failed")
-	}
-	s.n.Sent = append(s.n.Sent, m)
-	return nil
-}
-func (s *Sender) Close() error { s.n.OpenSenders--; return nil }
-func (s *Sender) Reset() error { s.n.OpenSenders--; return nil }
-
-// ---------------------------------------------------------------------
-// recording subscriber (one per request)
-
-type note struct {
-	topic messagequeue.Topic
-	name  messagequeue.EventName
-	close bool
-}
-
-type Sub struct {
-	id  int
-	log []note
-}
-
-func (s *Sub) OnNext(t notifications.Topic, e notifications.Event) {
-	ev := e.(messagequeue.Event)
-	s.log = append(s.log, note{topic: t.(messagequeue.Topic), name: ev.Name})
-}
-func (s *Sub) OnClose(t notifications.Topic) {
-	s.log = append(s.log, note{topic: t.(messagequeue.Topic), close: true})
-}
-
-// ---------------------------------------------------------------------
-// the stack
-
-type Stack struct {
-	Ctx     context.Context
-	Cancel  context.CancelFunc
-	Net     *Net
-	Alloc   *allocator.Allocator
-	PMM     *peermanager.PeerMessageManager
-	RA      *responseassembler.ResponseAssembler
-	Queues  []*messagequeue.MessageQueue
-	Exited  []peer.ID
-	Retries int
-	H       *Handler
-	// deadQueueBuild: a build callback ran on a queue whose run loop had
-	// already exited (region of the known finding C16-F1)
-	deadQueueBuild bool
-}
-
-func NewStack(total, perPeer uint64, retries int) *Stack {
-	ctx, cancel := context.WithCancel(context.Background())
-	s := &Stack{Ctx: ctx, Cancel: cancel, Net: &Net{}, Retries: retries}
-	s.Alloc = allocator.NewAllocator(total, perPeer)
-	s.PMM = peermanager.NewMessageManager(ctx, func(ctx context.Context, p peer.ID, onShutdown func(peer.ID)) peermanager.PeerQueue {
-		tq := &tagQ{s: s}
-		tq.MessageQueue = messagequeue.New(ctx, p, s.Net, s.Alloc, retries, time.Second, func(p peer.ID) {
-			s.Exited = append(s.Exited, p)
-			tq.exited = true
-			onShutdown(p)
-		})
-		s.Queues = append(s.Queues, tq.MessageQueue)
-		return tq
-	})
-	s.H = &Handler{pmm: s.PMM, attached: map[*messagequeue.Builder]map[graphsync.RequestID]bool{}}
-	s.RA = responseassembler.New(ctx, s.H)
-	return s
-}
-
-// tagQ is the real MessageQueue plus a ghost bit telling whether its run loop
-// has exited; a build callback that runs afterwards marks the region of the
-// known finding C16-F1.
-type tagQ struct {
-	*messagequeue.MessageQueue
-	s      *Stack
-	exited bool
-}
-
-func (t *tagQ) AllocateAndBuildMessage(size uint64, fn func(*messagequeue.Builder)) {
-	t.MessageQueue.AllocateAndBuildMessage(size, func(b *messagequeue.Builder) {
-		if t.exited {
-			t.s.deadQueueBuild = true
-		}
-		fn(b)
-	})
-}
-
-// Handler wraps the real PeerMessageManager and records, per message builder,
-// which requests attached a subscriber to it (the ghost for C16).
-type Handler struct {
-	pmm      *peermanager.PeerMessageManager
-	builders []*messagequeue.Builder
-	attached map[*messagequeue.Builder]map[graphsync.RequestID]bool
-}
-
-func (h *Handler) AllocateAndBuildMessage(p peer.ID, size uint64, fn func(*messagequeue.Builder)) {
-	h.pmm.AllocateAndBuildMessage(p, size, func(b *messagequeue.Builder) {
-		fn(b)
-		if h.attached[b] == nil {
-			h.attached[b] = map[graphsync.RequestID]bool{}
-			h.builders = append(h.builders, b)
-		}
-		for id := range b.Subscribers() {
-			h.attached[b][id] = true
-		}
-	})
-}
-
-// attachments returns the number of distinct messages request id attached to
-// (all of them, and those that are not empty: an empty builder is never a
-// message).
-func (h *Handler) attachments(id graphsync.RequestID) (all, nonEmpty int) {
-	for _, b := range h.builders {
-		if h.attached[b][id] {
-			all++
-			if !b.Empty() {
-				nonEmpty++
-			}
-		}
-	}
-	return
-}
 
 // opKinds of a transaction
 const (
@@ -238,13 +43,13 @@ type ghost struct {
 // runTransactions issues up to TX transactions of up to OPS operations over
 // up to REQS requests to peer p, optionally letting the queue drain between
 // them.  It returns whether any extension with data was queued.
-func runTransactions(s *Stack, p peer.ID, subs []*Sub, g *ghost) {
+func runTransactions(s *kit.Stack, p peer.ID, subs []*kit.Sub, g *ghost) {
 	ntx := verifrt.Param("TX", 2)
 	nops := verifrt.Param("OPS", 2)
 	nreq := len(subs)
 	streams := make([]responseassembler.ResponseStream, nreq)
 	for i := range streams {
-		streams[i] = s.RA.NewStream(s.Ctx, p, ReqID(i), subs[i])
+		streams[i] = s.RA.NewStream(s.Ctx, p, kit.ReqID(i), subs[i])
 	}
 	nextLink := 0
 	finished := make([]bool, nreq)
@@ -275,11 +80,11 @@ func runTransactions(s *Stack, p peer.ID, subs []*Sub, g *ghost) {
 				switch kd {
 				case opBlock:
 					data := verifrt.Bytes("blocklen", maxLen)
-					rb.SendResponse(Link(nextLink), data)
+					rb.SendResponse(kit.Link(nextLink), data)
 					nextLink++
 					desc += " block"
 				case opMissing:
-					rb.SendResponse(Link(nextLink), nil)
+					rb.SendResponse(kit.Link(nextLink), nil)
 					nextLink++
 					desc += " missing"
 				case opDupBlock:
@@ -287,7 +92,7 @@ func runTransactions(s *Stack, p peer.ID, subs []*Sub, g *ghost) {
 						continue
 					}
 					data := verifrt.Bytes("duplen", maxLen)
-					rb.SendResponse(Link(nextLink-1), data)
+					rb.SendResponse(kit.Link(nextLink-1), data)
 					desc += " dup"
 				case opExtData:
 					data := verifrt.Bytes("extlen", 255)
@@ -335,13 +140,13 @@ func VerifSend_Accounting() {
 	perPeer := verifrt.U64("peer-limit")
 	verifrt.Assume(perPeer >= 2*maxLen+64 && perPeer < 1<<30)
 	retries := verifrt.Param("RETRIES", 1)
-	s := NewStack(total, perPeer, retries)
+	s := kit.NewStack(total, perPeer, retries)
 	s.Net.MaxFaults = verifrt.Param("FAULTS", 2)
 	p := peer.ID("peerA")
 	nreq := verifrt.Param("REQS", 2)
-	subs := make([]*Sub, nreq)
+	subs := make([]*kit.Sub, nreq)
 	for i := range subs {
-		subs[i] = &Sub{id: i}
+		subs[i] = &kit.Sub{ID: i}
 	}
 	g := &ghost{}
 	runTransactions(s, p, subs, g)
@@ -368,7 +173,7 @@ func VerifSend_Accounting() {
 	if len(s.Net.Sent) > 0 {
 		verifrt.Cover("message-sent")
 	}
-	if s.Net.faults > 0 {
+	if s.Net.Faults > 0 {
 		verifrt.Cover("network-fault")
 	}
 	// C16: per (subscriber, topic) attachment exactly one Sent or Error,
@@ -380,24 +185,24 @@ func VerifSend_Accounting() {
 		per := map[messagequeue.Topic]*acc{}
 		var order []messagequeue.Topic
 		sawError := false
-		for _, n := range sb.log {
-			a := per[n.topic]
+		for _, n := range sb.Log {
+			a := per[n.Topic]
 			if a == nil {
 				a = &acc{}
-				per[n.topic] = a
-				order = append(order, n.topic)
+				per[n.Topic] = a
+				order = append(order, n.Topic)
 			}
 			switch {
-			case n.close:
+			case n.Close:
 				verifrt.Assert(a.outcome == 1, "C16 subscription closed before the message was reported sent or failed")
 				a.closed++
-			case n.name == messagequeue.Queued:
+			case n.Name == messagequeue.Queued:
 				verifrt.Assert(a.outcome == 0 && a.closed == 0, "C16 queued event after the outcome")
 				a.queued++
 			default:
 				verifrt.Assert(a.closed == 0, "C16 event delivered after the subscription was closed")
 				a.outcome++
-				if n.name == messagequeue.Error {
+				if n.Name == messagequeue.Error {
 					sawError = true
 				}
 			}
@@ -409,11 +214,11 @@ func VerifSend_Accounting() {
 			verifrt.Assert(a.queued <= 1, "C16 queued reported twice")
 			verifrt.Cover("attachment-reported")
 		}
-		attAll, att := s.H.attachments(ReqID(r))
+		attAll, att := s.H.Attachments(kit.ReqID(r))
 		verifrt.Eventf("req%d attached=%d reported=%d error=%v", r, att, len(order), sawError)
 		verifrt.Assert(len(order) <= attAll, "C16 subscriber notified about a message it never attached to")
 		if !sawError {
-			verifrt.AssertKF(len(order) == att, "C16 a message a subscriber attached to was never reported sent or failed", "C16-F1", s.deadQueueBuild)
+			verifrt.AssertKF(len(order) == att, "C16 a message a subscriber attached to was never reported sent or failed", "C16-F1", s.DeadQueueBuild)
 		} else {
 			verifrt.Cover("error-reported")
 		}
@@ -423,7 +228,7 @@ func VerifSend_Accounting() {
 		last := -1
 		for _, m := range s.Net.Sent {
 			for _, rsp := range m.Responses() {
-				if rsp.RequestID() != ReqID(r) {
+				if rsp.RequestID() != kit.ReqID(r) {
 					continue
 				}
 				rsp.Metadata().Iterate(func(c cid.Cid, _ graphsync.LinkAction) {
